@@ -141,7 +141,7 @@ func run(prop, tier, funcFilter string, verbose bool) (*report, error) {
 	t1 := time.Now()
 	var keys []string
 	for k, c := range prog.Contracts.ByKey {
-		if c.Assumed || (c.Pure && len(c.Ensures) == 0 && len(c.Requires) == 0 && !c.ModSet && len(c.Claims) == 0) {
+		if c.Iface || c.Assumed || (c.Pure && len(c.Ensures) == 0 && len(c.Requires) == 0 && !c.ModSet && len(c.Claims) == 0) {
 			continue
 		}
 		if !hasProp(c.Props, prop) {
@@ -206,6 +206,12 @@ func run(prop, tier, funcFilter string, verbose bool) (*report, error) {
 	if tier != "thorough" {
 		exclSkip = loadExcluded(prop)
 	}
+	knownOpen := map[string]bool{}
+	for _, k := range loadKnown() {
+		if k.Property == prop && k.Status != "fixed" {
+			knownOpen[k.Obligation] = true
+		}
+	}
 	par := 6
 	sem2 := make(chan struct{}, par)
 	for i, r := range all {
@@ -228,8 +234,13 @@ func run(prop, tier, funcFilter string, verbose bool) (*report, error) {
 			r.Query = q
 			r.File = filepath.Join(tmp, fmt.Sprintf("o%04d.smt2", i))
 			os.WriteFile(r.File, []byte("; "+o.Name+"\n"+q), 0o644)
-			r.Res = vc.Solve(r.File, secs, true)
-			if (r.Res.Status == "unknown" || r.Res.Status == "timeout" || r.Res.Status == "error") && !o.Cover {
+			if _, isKnown := knownOpen[o.Name]; isKnown && tier != "thorough" {
+				// an open known finding: one short attempt is enough to see that it still does not prove
+				r.Res = vc.Solve(r.File, 8, true)
+			} else {
+				r.Res = vc.Solve(r.File, secs, true)
+			}
+			if _, isKnown := knownOpen[o.Name]; (r.Res.Status == "unknown" || r.Res.Status == "timeout" || r.Res.Status == "error") && !o.Cover && !(isKnown && tier != "thorough") {
 				// retry policy: once more with a longer limit
 				r2 := vc.Solve(r.File, secs*2, false)
 				r2.Tried = append(r.Res.Tried, r2.Tried...)
